@@ -107,20 +107,31 @@ def make_lexer_fn(pvl, holder, factor=50):
 
 
 def traced_parser(pvl, reader, holder, factor=50):
-    """The strict parser of *reader* with the trace proxy installed."""
+    """The strict parser of *reader* with the trace proxy installed.
+    "<reader>+Decimal": the same with real_cls=decimal.Decimal."""
     P, G, D = pvl.parser, pvl.grammar, pvl.decoder
     fn = make_lexer_fn(pvl, holder, factor)
+    dk = {}
+    if reader.endswith("+Decimal"):
+        import decimal
+        reader = reader.split("+")[0]
+        dk = {"real_cls": decimal.Decimal}
     if reader == "PVL":
-        return P.PVLParser(grammar=G.PVLGrammar(), decoder=D.PVLDecoder(), lexer_fn=fn)
+        return P.PVLParser(grammar=G.PVLGrammar(), decoder=D.PVLDecoder(**dk),
+                           lexer_fn=fn)
     if reader == "ODL":
-        return P.ODLParser(grammar=G.ODLGrammar(), decoder=D.ODLDecoder(), lexer_fn=fn)
+        return P.ODLParser(grammar=G.ODLGrammar(), decoder=D.ODLDecoder(**dk),
+                           lexer_fn=fn)
     if reader == "PDS3":
         return P.ODLParser(grammar=G.PDSGrammar(), decoder=D.PDSLabelDecoder(),
                            lexer_fn=fn)
     if reader == "ISIS":
         g = G.ISISGrammar()
-        return P.OmniParser(grammar=g, decoder=D.OmniDecoder(grammar=g), lexer_fn=fn)
+        return P.OmniParser(grammar=g, decoder=D.OmniDecoder(grammar=g, **dk),
+                            lexer_fn=fn)
     if reader == "default":
+        if dk:
+            return P.OmniParser(decoder=D.OmniDecoder(**dk), lexer_fn=fn)
         return P.OmniParser(lexer_fn=fn)
     raise KeyError(reader)
 
